@@ -1,16 +1,26 @@
 #!/bin/sh
-# builds the framework and warms the Go build cache; offline
+# builds the framework and the warm base of the Go build cache; offline
 set -e
 cd "$(dirname "$0")"
 export GOFLAGS=-mod=mod GOPROXY=off GOSUMDB=off GOTOOLCHAIN=local
 mkdir -p bin evidence replays
 go build -o bin/vcheck ./cmd/vcheck
-# warm the build cache for the repository's packages (a scratch copy; /repo is never written)
-T=$(mktemp -d)
-trap 'rm -rf "$T"' EXIT
-rsync -a --exclude .git --exclude /fc/fc --exclude /cmd/build_sample_md/build_sample_md /repo/ "$T/src/"
-(cd "$T/src/fc" && go build -o "$T/fc" . ) || true
-(cd "$T/src/fc" && go build -tags verif -o "$T/fcv" . ) || true
-(cd "$T/src/tinyfo" && go build -o "$T/tinyfo" . ) || true
-(cd "$T/src/cmd/build_sample_md" && go build -o "$T/bsm" . ) || true
+# The checks never use the shared GOCACHE (every batch of generated programs is a new package; the shared
+# cache grew to >100 GB in a day).  Each vcheck process hard-links this base into a private cache and removes
+# it when it exits.  The base holds the standard library and the repository's dependencies (go-cmp).
+if [ ! -d bin/gocache-base ]; then
+  B="$(pwd)/bin/gocache-base.tmp.$$"
+  rm -rf "$B"; mkdir -p "$B"
+  T=$(mktemp -d)
+  trap 'rm -rf "$T" "$B"' EXIT
+  rsync -a --exclude .git --exclude /fc/fc --exclude /cmd/build_sample_md/build_sample_md /repo/ "$T/src/"
+  GOCACHE="$B" go build std
+  (cd "$T/src/fc" && GOCACHE="$B" go build -o "$T/fc" . ) || true
+  (cd "$T/src/pkg/frt" && GOCACHE="$B" go build ./... ) || true
+  (cd "$T/src/tinyfo" && GOCACHE="$B" go build -o "$T/tinyfo" . ) || true
+  GOCACHE="$B" go build -o "$T/vc" ./cmd/vcheck || true
+  mv "$B" bin/gocache-base
+  rm -rf "$T"
+  trap - EXIT
+fi
 echo setup done
